@@ -57,8 +57,9 @@ def mdp_specs(draw, max_states=10, max_actions=4, max_events=4, min_states=1, al
         k = draw(st.integers(reward_scales[0], reward_scales[1]))
         scale = 10.0 ** k
 
-    def rewardval():
-        return draw(st.integers(-16, 16)) * 0.5 * scale
+    def rewardval(s=0, a=0, e=0):
+        # the index-dependent offset keeps Hypothesis's minimal (all-zero draws) example non-degenerate
+        return (draw(st.integers(-16, 16)) + (3 * s + 5 * a + 7 * e) % 11 - 5) * 0.5 * scale
 
     period = None
     if chain is not None and chain.startswith("phase"):
@@ -85,7 +86,7 @@ def mdp_specs(draw, max_states=10, max_actions=4, max_events=4, min_states=1, al
                 if w[j] == 0:
                     w[j] = 1
             else:
-                n_e = [draw(st.integers(0, nS - 1)) for _ in range(nE)]
+                n_e = [(draw(st.integers(0, nS - 1)) + s + a + e_) % nS for e_ in range(nE)]
             if sticky:
                 # slowly mixing: most of the mass stays in the current state
                 n_e[0] = s
@@ -101,7 +102,7 @@ def mdp_specs(draw, max_states=10, max_actions=4, max_events=4, min_states=1, al
             tot = float(sum(w))
             rn.append(n_e)
             rp.append([x / tot for x in w])
-            rr.append([rewardval() for _ in range(nE)])
+            rr.append([rewardval(s, a, e_) for e_ in range(nE)])
         nxt.append(rn)
         rew.append(rr)
         prb.append(rp)
